@@ -27,8 +27,8 @@ RULE = ("one case = one codebase description: a finite set of distinct relative 
 ASSUMPTIONS = ["paths are normalised relative paths with non-empty components other than '.' and '..'; no path is both a file and a folder",
                "aggregate() is observed once per codebase, as every caller in the repository does",
                "a file's line total is the sum of its function lengths (established by C05 for scanned files)"]
-BOUNDS = {"quick": dict(n=32, random=60000, perm_specs=3000), "thorough": dict(n=64, random=1000000, perm_specs=40000)}
-MINIMUM = {"quick": {"monitor.aggregate_invariant": 100000, "monitor.json_documents": 50000, "monitor.reader_roundtrips": 50000},
+BOUNDS = {"quick": dict(n=32, random=60000, perm_specs=3000, scans=6), "thorough": dict(n=64, random=1000000, perm_specs=40000, scans=120)}
+MINIMUM = {"quick": {"monitor.aggregate_invariant": 100000, "monitor.json_documents": 50000, "monitor.reader_roundtrips": 50000, "monitor.scans_under_aggregate_hook": 300},
            "thorough": {"monitor.aggregate_invariant": 1500000, "monitor.json_documents": 800000, "monitor.reader_roundtrips": 800000}}
 
 
@@ -187,9 +187,73 @@ def one_spec(ctx, hook, spec, label):
     ctx.maxi("max.depth", max([e["path"].count("/") for e in spec["entries"]], default=0))
 
 
+def scanned_codebases(ctx, hook, rng, n):
+    """The same invariant on codebases produced by REAL scans, cold and cache-assisted, of trees that change between scans
+    (copies of a file into a new folder, renames, edits, deletions): scan_command calls aggregate(), where the hook judges."""
+    import os
+    import shutil
+    import tempfile
+
+    from vf.cachelab import read_cache, run_scan_command
+    from vf.gen import canon
+
+    for i in range(n):
+        root = os.path.realpath(tempfile.mkdtemp(prefix="vf-c07-"))
+        try:
+            names = []
+            for k in range(rng.randint(2, 5)):
+                lang = rng.choice(["Python", "JavaScript", "C", "Java"])
+                rel = os.path.join(rng.choice(["", "pkg", "pkg/core", "lib/a/b", "-attic"]), f"m{k}{canon.EXT[lang]}")
+                os.makedirs(os.path.dirname(os.path.join(root, rel)), exist_ok=True)
+                with open(os.path.join(root, rel), "w") as f:
+                    f.write(canon.file_with_functions(lang, [max(2, rng.choice([3, 16, 31, 61, 12])) for _ in range(rng.randint(0, 3))], prefix=f"s{k}x"))
+                names.append(rel)
+            history = []
+            for step in range(rng.randint(2, 4)):
+                ctx.eval()
+                err, _ = run_scan_command(root)
+                ctx.count("monitor.scans_under_aggregate_hook")
+                if isinstance(err, MonitorViolation):
+                    ctx.violation("aggregate_invariant_in_scan", {"scan_history": history}, {"history": history, "problems": hook.problems})
+                    break
+                if err is not None:
+                    ctx.notes.append(f"scan raised {type(err).__name__} (C03's concern)")
+                    break
+                doc = read_cache(root)
+                dp = document_problems(doc, [{"path": p} for p in doc["codebase"]["files"]])
+                on_disk = sorted(os.path.relpath(os.path.join(d, f), root) for d, _, fs in os.walk(root) for f in fs
+                                 if ".codelimit_cache" not in d)
+                if dp or sorted(doc["codebase"]["files"]) != on_disk:
+                    ctx.violation("scan_document", {"scan_history": history}, {"history": history, "problems": dp[:3],
+                                                                                "files_in_report": sorted(doc["codebase"]["files"]), "on_disk": on_disk})
+                    break
+                op = rng.choice(["copy", "copy", "rename", "edit", "delete"])
+                src = rng.choice(names)
+                if op == "copy":
+                    dst = os.path.join(rng.choice(["new", "pkg/copy", "x/y"]), f"c{step}_" + os.path.basename(src))
+                    os.makedirs(os.path.dirname(os.path.join(root, dst)), exist_ok=True)
+                    shutil.copy(os.path.join(root, src), os.path.join(root, dst))
+                    names.append(dst)
+                elif op == "rename":
+                    dst = os.path.join(os.path.dirname(src), f"r{step}_" + os.path.basename(src))
+                    os.replace(os.path.join(root, src), os.path.join(root, dst))
+                    names[names.index(src)] = dst
+                elif op == "edit":
+                    with open(os.path.join(root, src), "a") as f:
+                        f.write("\n")
+                elif op == "delete" and len(names) > 1:
+                    os.unlink(os.path.join(root, src))
+                    names.remove(src)
+                history.append([op, src])
+            ctx.distinct(["scan", history, names])
+        finally:
+            shutil.rmtree(root, ignore_errors=True)
+
+
 def run(shard, ctx):
     rng = rng_for(shard["seed"], "c07", shard["part"])
     with Hook(ctx) as hook:
+        scanned_codebases(ctx, hook, rng, shard.get("scans", 6))
         for i in range(shard["random"] // shard["parts"]):
             spec = G.codebase_spec(rng, max_files=rng.choice([6, 25, 60]))
             one_spec(ctx, hook, spec, "random")
@@ -207,6 +271,9 @@ def run(shard, ctx):
 
 def replay(case, ctx):
     with Hook(ctx) as hook:
+        if "scan_history" in case:
+            scanned_codebases(ctx, hook, rng_for(0, "c07r"), 40)
+            return
         one_spec(ctx, hook, case["spec"], "replay")
 
 
